@@ -338,32 +338,31 @@ fn now() -> u128 {
 
 fn bucket_entries(bucket: &Path) -> std::io::Result<Vec<SerializableMetadata>> {
     use std::io::{BufRead, BufReader};
-    fs::File::open(bucket)
-        .map(|file| {
-            BufReader::new(file)
-                .lines()
-                // A line that is not valid UTF-8 (a record torn inside a
-                // multi-byte character, or garbage) only invalidates itself;
-                // stop at real I/O errors.
-                .filter(|line| !matches!(line, Err(e) if e.kind() == ErrorKind::InvalidData))
-                .map_while(std::result::Result::ok)
-                .filter_map(|entry| {
-                    let entry_str = match entry.split('\t').collect::<Vec<&str>>()[..] {
-                        [hash, entry_str] if hash_entry(entry_str) == hash => entry_str,
-                        // Something's wrong with the entry. Abort.
-                        _ => return None,
-                    };
-                    serde_json::from_str::<SerializableMetadata>(entry_str).ok()
-                })
-                .collect()
-        })
-        .or_else(|err| {
-            if err.kind() == ErrorKind::NotFound {
-                Ok(Vec::new())
-            } else {
-                Err(err)?
-            }
-        })
+    let file = match fs::File::open(bucket) {
+        Ok(file) => file,
+        Err(err) if err.kind() == ErrorKind::NotFound => return Ok(Vec::new()),
+        Err(err) => return Err(err),
+    };
+    let mut entries = Vec::new();
+    for line in BufReader::new(file).lines() {
+        let entry = match line {
+            Ok(entry) => entry,
+            // A line that is not valid UTF-8 (a record torn inside a
+            // multi-byte character, or garbage) only invalidates itself.
+            Err(e) if e.kind() == ErrorKind::InvalidData => continue,
+            // A real I/O error must not be mistaken for "no more records".
+            Err(e) => return Err(e),
+        };
+        let entry_str = match entry.split('\t').collect::<Vec<&str>>()[..] {
+            [hash, entry_str] if hash_entry(entry_str) == hash => entry_str,
+            // Something's wrong with the entry. Skip it.
+            _ => continue,
+        };
+        if let Ok(serialized) = serde_json::from_str::<SerializableMetadata>(entry_str) {
+            entries.push(serialized);
+        }
+    }
+    Ok(entries)
 }
 
 #[cfg(any(feature = "async-std", feature = "tokio"))]
@@ -385,9 +384,9 @@ async fn bucket_entries_async(bucket: &Path) -> std::io::Result<Vec<Serializable
             Ok(entry) => entry,
             // A line that is not valid UTF-8 only invalidates itself.
             Err(e) if e.kind() == ErrorKind::InvalidData => continue,
-            // A real I/O error comes back on every poll: stop reading, as
-            // the sync reader does.
-            Err(_) => break,
+            // A real I/O error must not be mistaken for "no more records"
+            // (and it comes back on every poll, so do not retry either).
+            Err(e) => return Err(e),
         };
         let entry_str = match entry.split('\t').collect::<Vec<&str>>()[..] {
             [hash, entry_str] if hash_entry(entry_str) == hash => entry_str,
